@@ -163,6 +163,12 @@ theorem spec_get_set (P : Params) (s s' : Spec) (k v : Str) (hb : Balanced s)
 theorem int_codec (i : Int) : pyIntParse (pyIntRepr i) = some i ∧ xmlOk (pyIntRepr i) = true :=
   ⟨pyIntParse_repr i, xmlOk_pyIntRepr i⟩
 
+/-- Two different integers are never written as the same attribute text. -/
+theorem int_repr_injective (i j : Int) (h : pyIntRepr i = pyIntRepr j) : i = j := by
+  have h1 := (int_codec i).1
+  rw [h, (int_codec j).1] at h1
+  exact (Option.some.inj h1).symm
+
 /-- `DatetimePOD.re_get` undoes `DatetimePOD.re_set` on every string on which `re_set` matches or
 `re_get` does not (every `isoformat` output; sampled) — and `re_set` keeps XML-legal text legal. -/
 theorem datetime_regex_inverse (s : Str) (h : IsoShape s) :
